@@ -618,3 +618,32 @@ Proof.
   eexists. split; [vm_compute; reflexivity|]. split; [reflexivity|].
   eexists. split; [vm_compute; reflexivity|]. split; reflexivity.
 Qed.
+
+(* the acceptor is sensitive to the two mechanisms the property is about:
+   (a) on g_sh the push of C = 0 fails (nothing stored) while D = 1 is in flight; then B = 3,
+       whose only successor is C, goes on to PreCopy as if C were done: rejected at that event
+       (index 27), whereas the same trace without it is a run;
+   (b) a call whose context was cancelled (here: before the call) cannot return success. *)
+Definition tr_sh_pre : list fevent :=
+  [Ev (ExB 4); Ev (ExE 4 false); Ev (SFB 4); Ev (SFE 4); Ev (SFC 4);
+   Ev (ExB 2); Ev (ExB 3); Ev (ExE 2 false); Ev (ExE 3 false);
+   Ev (SFB 2); Ev (SFE 2); Ev (SFC 2); Ev (SFB 3); Ev (SFE 3); Ev (SFC 3);
+   Ev (ExB 0); Ev (ExB 1); Ev (ExE 0 false); Ev (ExE 1 false);
+   Ev (Cb CPre 0); Ev (SFB 0); Ev (SFE 0); Ev (PuB 0 false);
+   Ev (Cb CPre 1); Ev (SFB 1);
+   PuX 0 false false; Ev (SFC 0)].
+
+Lemma example_rejects_parent_of_dead :
+  (exists fs, faccepts g_sh c_sh false [] tr_sh_pre = Some fs /\ ph (fb fs) 0 = Dead /\ ph (fb fs) 3 = Waiting) /\
+  faccepts g_sh c_sh false [] (tr_sh_pre ++ [Ev (Cb CPre 3)]) = None.
+Proof.
+  split; [eexists; split; [vm_compute; reflexivity | split; reflexivity] | vm_compute; reflexivity].
+Qed.
+
+Lemma example_rejects_ok_after_cancel :
+  faccepts g_sh c_sh false [] [Cancel; Ev (Ret true)] = None /\
+  (exists fs, faccepts g_sh c_sh false [] [Cancel; Ev (Ret false)] = Some fs) /\
+  faccepts g_x c_x true [0; 1; 2] [ProOk; Cancel; ProOk; ProOk; Ev (Ret true)] = None.
+Proof.
+  split; [vm_compute; reflexivity|]. split; [eexists; vm_compute; reflexivity | vm_compute; reflexivity].
+Qed.
